@@ -3,10 +3,11 @@
   R-C17-merge-table       PathAwareValue::merge: for every key of the other map, the value is inserted and the key recorded
                           exactly when the key was absent; a present key is an error at once (no silent choice); lists extend;
                           any other pair of kinds is an error
+                          merge changes keys and values entry by entry only (no swap / replace / take of one of the parallel structures)
   R-C17-errors-propagate  every caller of merge returns the merge error (no unwrap, no swallowing)
   R-C17-params-reach-every-evaluation   in Validate::execute the value folded from --input-parameters is what every evaluation sink
                           receives (evaluate_rule's extra_data in both plain branches, StructuredEvaluator.input_params in both
-                          structured branches)
+                          structured branches); nothing takes, replaces or mutably borrows the parameters inside the per-file loops
   R-C17-every-file-loaded a file found by a discovery loop of Validate::execute is skipped only for not being a regular file or not
                           having a supported extension; walk_dir applies nothing that drops entries
   R-C17-file-discovery-agreement / R-C17-merge-operand-order   (see the functions' docstrings)
